@@ -15,6 +15,7 @@ import (
 	"github.com/openconfig/ygot/verifharness/model"
 	"github.com/openconfig/ygot/ygot"
 	"github.com/openconfig/ygot/ytypes"
+	"google.golang.org/protobuf/encoding/protojson"
 	"verifsim/simrt"
 )
 
@@ -244,7 +245,17 @@ func c03StepView(s *treeState, op Op, cur ygot.GoStruct, replica *ygot.GoStruct,
 	re := simrt.NewRng(simrt.Mix(stepSeed, 77))
 	eg := gen.New(&re, s.g.P)
 	next := model.Clone(cur).(ygot.GoStruct)
-	if op.arg("self") != "1" {
+	if sp := op.arg("setpath"); sp != "" {
+		// a pinned case names its one edit explicitly (a path and a TypedValue), so that it does
+		// not depend on what the generators make of a seed
+		tv := &gpb.TypedValue{}
+		if err := protojson.Unmarshal([]byte(op.arg("settv")), tv); err != nil {
+			panic("C03: bad pinned TypedValue: " + err.Error())
+		}
+		if err := ytypes.SetNode(s.sch, next, model.GNMI(sp), tv, &ytypes.InitMissingElements{}); err != nil {
+			panic("C03: pinned edit cannot be applied: " + err.Error())
+		}
+	} else if op.arg("self") != "1" {
 		eg.Mutate(reflect.ValueOf(next).Elem(), s.sch, 0, editParams(op.arg("rate")))
 	}
 	if op.arg("empties") == "1" {
